@@ -143,6 +143,10 @@ class BlockMatMul(ArrayExpr):
     def _name(self):
         return f"block-matmul-{self.deterministic_token}"
 
+    def _requires_grid_preservation(self, dependency):
+        # ``_layer`` pairs the blocks of several inputs by position
+        return True
+
     def _layer(self):
         dsk = {}
         numblocks = len(self.q.chunks[0])
